@@ -3,13 +3,16 @@ from propslib import comp_scope
 
 PROP = dict(
     extract=["editor", "capi_keys"],
-    lean_targets=["Chewing.Props.C01", "Chewing.Props.C06CApi"],
+    lean_targets=["Chewing.Props.C01", "Chewing.Props.C06CApi", "Chewing.Props.C01EditorTie"],
     runs=[
         # pure Rust API: every operation is a transcript record the model recomputes (panic outcomes included);
         # oracle_c01.rs reports every panic / hang of an operation or of a read-only accessor
         dict(bin="editor"),
         # scripted family: candidate choices over break / glue marks (script_c01.rs), same step machinery and oracle
         dict(bin="editor", args=["--script", "c01"], tag="editor-c01-breaks"),
+        # closed-world BFS of the real editor (bfs.rs): every (reachable state, operation) of small closed configurations, every
+        # accessor on every state; closed configurations are listed in the evidence (coverage.exhaustive_closed_worlds)
+        dict(bin="editor", args=["--bfs", "all"], tag="editor-bfs", timeout=1500, timeout_thorough=20000),
         # C API in forked workers with a per-call watchdog: oracle only (`!oracle C01 <class> <history>`), no records
         dict(bin="capi_crash", timeout=1500, timeout_thorough=3000),
         # C call glue: every call of a generated C-API history is a record `capiops call` (Lean model of capi/src/io.rs =
